@@ -348,7 +348,14 @@ impl<'a> ToTokens for WriteWithFn<'a> {
                 }
             }
             BodyFields::StdBody(fields) => {
-                let num_slots = compute_num_slots(root, fields, false);
+                // Only the slots of a labelled body can be omitted; the items of a positional body are
+                // all written so all of them are counted.
+                let num_slots = if fields_model.body_kind == CompoundTypeKind::Labelled {
+                    compute_num_slots(root, fields, false)
+                } else {
+                    let num_items = fields.len();
+                    quote!(let num_slots: usize = #num_items;)
+                };
 
                 let (body_kind, statements) =
                     if fields_model.body_kind == CompoundTypeKind::Labelled {
@@ -470,7 +477,14 @@ impl<'a> ToTokens for WriteIntoFn<'a> {
                 }
             }
             BodyFields::StdBody(fields) => {
-                let num_slots = compute_num_slots(root, fields, true);
+                // Only the slots of a labelled body can be omitted; the items of a positional body are
+                // all written so all of them are counted.
+                let num_slots = if fields_model.body_kind == CompoundTypeKind::Labelled {
+                    compute_num_slots(root, fields, true)
+                } else {
+                    let num_items = fields.len();
+                    quote!(let num_slots: usize = #num_items;)
+                };
 
                 let (body_kind, statements) =
                     if fields_model.body_kind == CompoundTypeKind::Labelled {
